@@ -196,20 +196,24 @@ impl AnchorContext {
         }
 
         if !self.column_names.contains_key(&cid) {
-            // a generated name must not capture a column the user can see: skip names
-            // of table columns and names that are already in use
-            let name = loop {
-                let candidate = self.col_name.gen();
-                let is_table_column = self.column_decls.values().any(|d| {
-                    matches!(d, ColumnDecl::RelationColumn(_, _, RelationColumn::Single(Some(n))) if *n == candidate)
-                });
-                if !is_table_column && !self.column_names.values().any(|n| *n == candidate) {
-                    break candidate;
-                }
-            };
+            let name = self.gen_column_name();
             self.column_names.insert(cid, name);
         }
         self.column_names.get(&cid)
+    }
+
+    /// A fresh `_expr_N` name. A generated name must not capture a column the user
+    /// can see, so names of table columns and names already in use are skipped.
+    pub(crate) fn gen_column_name(&mut self) -> String {
+        loop {
+            let candidate = self.col_name.gen();
+            let is_table_column = self.column_decls.values().any(|d| {
+                matches!(d, ColumnDecl::RelationColumn(_, _, RelationColumn::Single(Some(n))) if *n == candidate)
+            });
+            if !is_table_column && !self.column_names.values().any(|n| *n == candidate) {
+                return candidate;
+            }
+        }
     }
 
     pub(super) fn load_names(
